@@ -16,5 +16,5 @@ python3 tools/rs2lean/hookfwd.py "${VERIF_REPO:-/repo}" lean/TrippyVerif/Gen || 
 python3 tools/rs2lean/consts.py "${VERIF_REPO:-/repo}" lean/TrippyVerif/Gen lean/TrippyVerif/Gen/Pkt.report.json
 (cd lean && lake build TrippyVerif tvdriver 2>&1 | grep -v "depends on axioms\|does not depend" | tail -20)
 [ -f harness/Cargo.lock ] || cp "${VERIF_REPO:-/repo}/Cargo.lock" harness/Cargo.lock
-(cd harness && cargo build --offline 2>&1 | tail -3)
+(cd harness && env -u CARGO_TARGET_DIR -u CARGO_BUILD_TARGET_DIR cargo build --offline --target-dir "$(pwd)/../.build/cargo" 2>&1 | tail -3)
 echo setup done
